@@ -48,6 +48,17 @@ MISUSE = [
     ("custom-delegate-without-target", "\ndelegate_by = DelegateT", ["pub trait T { fn m(&self); }"], "Cannot use a custom delegating trait without a custom trait to delegate to", -1),
     ("target-without-delegate-by", "TImpl", ["pub trait T { fn m(&self); }"], "Missing delegate_by", None),
     ("missing-trait-name", "", ["pub fn f(deps: &()) {}"], None, None),
+    # keywords where an identifier is expected: whatever the macro does, it must not emit them as identifiers
+    ("keyword-selector-pub", "TImpl, delegate_by = pub", ["pub trait T { fn m(&self); }"], None, None),
+    ("keyword-selector-dyn", "TImpl delegate_by = dyn", ["pub trait T { fn m(&self); }"], None, None),
+    ("keyword-selector-true", "TImpl, delegate_by = true", ["pub trait T { fn m(&self); }"], None, None),
+    ("keyword-selector-crate", "TImpl, delegate_by = crate", ["pub trait T { fn m(&self); }"], None, None),
+    ("keyword-mock-api", "Foo, mock_api = pub", ["pub fn f(deps: &()) {}"], None, None),
+    ("keyword-mock-api-self", "mock_api = Self", ["pub trait T { fn m(&self); }"], None, None),
+    ("keyword-trait-name", "pub fn", ["pub fn f(deps: &()) {}"], None, None),
+    ("keyword-trait-name-self", "Self", ["pub fn f(deps: &()) {}"], None, None),
+    ("keyword-impl-trait-name", "pub Self, delegate_by = ref", ["pub trait T { fn m(&self); }"], None, None),
+    ("raw-keyword-names", "r#pub, mock_api = r#fn", ["pub fn f(deps: &()) {}"], "<accepted>", None),
     ("mod-declaration-without-body", "Foo", ["mod external", ";"], None, None),
     ("trait-const-item", "", ["pub trait T {", "const C: u8;", "fn m(&self); }"], "Entrait does not support this kind of trait item", 1),
     ("trait-macro-item", "", ["pub trait T {", "some_macro!();", "fn m(&self); }"], "Entrait does not support this kind of trait item", 1),
